@@ -38,9 +38,16 @@ INTS18 = [0, 1, -1, 7, 255, 65536, 2**31 - 1, -2**31, 2**31, 2**53 - 1, -(2**53 
 EDGE18 = [0, 1, -1, 3, -3, 2**31 - 1, -2**31, 2**32 + 1, 2**52 + 1, -(2**52 + 1), 2**52 + 3, 4503599627370497, 2**53 - 1, -(2**53 - 1), 2**53 - 3,
           6755399441055745, 9007199254740989, 123456789012345, 999999999999999,
           # beyond 2^53 but exactly representable as float64, up to the int64 limits
-          -2**63, 2**62, -(2**62), 2**53 + 2, 2**60 + 2**10, -(2**63 - 2**10), 2**63 - 2**10]
+          -2**63, 2**62, -(2**62), 2**53 + 2, 2**60 + 2**10, -(2**63 - 2**10), 2**63 - 2**10,
+          # ... and up to the uint64 limit (unsigned and float targets only)
+          2**63, 2**63 + 2**11, 10**19, 2**64 - 2**11]
 BIGINTS18 = [2**53 + 1, 2**62, 2**63 - 1, -2**63, 10**18 + 1]
 FLOATS18 = [0.5, -0.25, 1.5, 3.0, 1e3, 1e-7, 123.456, 1e21, 1e22, 5e-324, 1.7976931348623157e308, -0.0, 0.1, 2.5e-5, 4.0]
+
+
+def IU(x):
+    """an integer setting: values above MaxInt64 only exist as unsigned ones"""
+    return U(x) if x >= 2**63 else I(x)
 
 
 def fbits(x):
@@ -112,7 +119,7 @@ def expressible(d):
         x = to_py(d)
         return x == x and x not in (float("inf"), float("-inf"))
     if "i" in d or "u" in d:
-        return -2**63 <= int(d.get("i", d.get("u"))) < 2**63
+        return -2**63 <= int(d.get("i", d.get("u"))) < 2**64
     if "a" in d:
         return all(expressible(x) for x in d["a"])
     if "m" in d:
@@ -164,13 +171,13 @@ def gen(rng, tier):
             for j, nm in enumerate(TG.FIELD_NAMES[:2 + rng.below(3)]):
                 k = rng.pick(kinds)
                 r = rng.below(4)
-                pool = [x for x in EDGE18 if (x >= 0 or not k.startswith("u")) and (abs(x) < 2**31 or k != "int32")]
+                pool = [x for x in EDGE18 if (x >= 0 or not k.startswith("u")) and (abs(x) < 2**31 or k != "int32") and (x < 2**63 or k in ("uint64", "uint", "float64"))]
                 if r == 0:
-                    fs.append({"n": nm, "tag": "", "v": "", "ty": TG.T("slice", e=TG.T(k))}); kv.append((nm.lower(), A([I(rng.pick(pool)) for _ in range(1 + rng.below(3))])))
+                    fs.append({"n": nm, "tag": "", "v": "", "ty": TG.T("slice", e=TG.T(k))}); kv.append((nm.lower(), A([IU(rng.pick(pool)) for _ in range(1 + rng.below(3))])))
                 elif r == 1:
-                    fs.append({"n": nm, "tag": "", "v": "", "ty": TG.T("map", e=TG.T(k))}); kv.append((nm.lower(), M([("k%d" % q, I(rng.pick(pool))) for q in range(1 + rng.below(3))])))
+                    fs.append({"n": nm, "tag": "", "v": "", "ty": TG.T("map", e=TG.T(k))}); kv.append((nm.lower(), M([("k%d" % q, IU(rng.pick(pool))) for q in range(1 + rng.below(3))])))
                 else:
-                    fs.append({"n": nm, "tag": "", "v": "", "ty": TG.T(k)}); kv.append((nm.lower(), I(rng.pick(pool))))
+                    fs.append({"n": nm, "tag": "", "v": "", "ty": TG.T(k)}); kv.append((nm.lower(), IU(rng.pick(pool))))
             ty = TG.T("struct", f=fs)
             doc = M(kv)
             opts = rng.pick([[], [opt("PathSep", ".")]])
